@@ -32,7 +32,39 @@ def mk_constraints(spec, subclass):
     return cs
 
 
+class Fresh(object):
+    """Maps the case's resource numbers to identifiers that are equal but never identical between two mentions."""
+    def __init__(self, kind):
+        self.kind = kind
+
+    def __call__(self, r):
+        if self.kind == "str":
+            return "".join(["res", "-", str(r)])
+        if self.kind == "tuple":
+            return tuple(["res", int(str(r))])
+        if self.kind == "bigint":
+            return int(str(1000003 + r))
+        return r
+
+    def back(self, x):
+        if self.kind == "str":
+            return int(x.split("-")[1])
+        if self.kind == "tuple":
+            return x[1]
+        if self.kind == "bigint":
+            return x - 1000003
+        return x
+
+
 def run_case(c):
+    fr = Fresh(c.get("reskind"))
+    if c.get("reskind"):
+        c = dict(c)
+        ren = lambda pairs: [[fr(r), q] for r, q in pairs]
+        m0 = c["machine"]
+        c["machine"] = dict(m0, res=ren(m0["res"]), exc=[[xy, ren(rs)] for xy, rs in m0["exc"]])
+        c["vres"] = [[v, ren(rq)] for v, rq in c["vres"]]
+        c["constraints"] = [[k[0], fr(k[1])] + list(k[2:]) if k[0] in ("reserve", "align") else k for k in c["constraints"]]
     m = c["machine"]
     machine = Machine(m["w"], m["h"], chip_resources=OrderedDict((r, q) for r, q in m["res"]),
                       chip_resource_exceptions=OrderedDict(
@@ -83,7 +115,7 @@ def run_case(c):
         return ["fail", 0]
     except Exception as e:
         return ["other", type(e).__name__]
-    return ["ok", [[v, [[r, s.start, s.stop] for r, s in ra.items()]] for v, ra in a.items()]]
+    return ["ok", [[v, [[fr.back(r), s.start, s.stop] for r, s in ra.items()]] for v, ra in a.items()]]
 
 
 if __name__ == "__main__":
